@@ -40,7 +40,7 @@ func die(f string, a ...any) {
 func main() {
 	repo := flag.String("repo", "/repo", "serf checkout")
 	out := flag.String("out", "", "output directory")
-	mode := flag.String("mode", "snapshot", "snapshot|lamport")
+	mode := flag.String("mode", "snapshot", "snapshot|lamport|locks|clientlocks")
 	mutant := flag.String("mutant", "", "optional overlay.json whose replacements are read instead of the repo files (sensitivity trials)")
 	flag.Parse()
 	if *mutant != "" {
@@ -84,6 +84,30 @@ func main() {
 		}
 		replace[filepath.Join(*repo, "serf", "verif_shim_lamport.go")] = shim
 		fmt.Printf("lamport.go: %d uses of sync/atomic redirected to yielding wrappers\n", n)
+	case "locks", "clientlocks":
+		dir, pkgName, files := "serf", "serf", []string{"serf.go", "query.go", "event.go"}
+		if *mode == "clientlocks" {
+			dir, pkgName, files = "client", "client", []string{"rpc_client.go"}
+		}
+		total := 0
+		for _, name := range files {
+			src := filepath.Join(*repo, dir, name)
+			dst := filepath.Join(*out, name)
+			k := rewriteLocks(src, dst)
+			if k > 0 {
+				replace[src] = dst
+			}
+			total += k
+		}
+		if total == 0 {
+			die("no sync.Mutex/sync.RWMutex found; refusing to produce a vacuous overlay")
+		}
+		shim := filepath.Join(*out, "verif_shim_locks.go")
+		if err := os.WriteFile(shim, []byte(strings.Replace(locksShim, "package serf\n", "package "+pkgName+"\n", 1)), 0o644); err != nil {
+			die("%v", err)
+		}
+		replace[filepath.Join(*repo, dir, "verif_shim_locks.go")] = shim
+		fmt.Printf("%s (%s): %d mutexes replaced by yielding wrappers\n", dir, strings.Join(files, ", "), total)
 	default:
 		die("unknown mode %q", *mode)
 	}
@@ -548,4 +572,116 @@ func verifCompareAndSwapUint64(p *uint64, o, n uint64) bool {
 	verifYield()
 	return atomic.CompareAndSwapUint64(p, o, n)
 }
+`
+
+// ------------------------------------------------------------------- locks
+
+// rewriteLocks replaces the types sync.Mutex and sync.RWMutex of struct fields
+// and variables by wrappers with the same method set that call a harness hook
+// before acquiring and after releasing. No statement is touched: the code
+// locks and unlocks exactly where it did; the hook can only make a goroutine
+// slower at those points, which every scheduler is allowed to do.
+func rewriteLocks(src, dst string) int {
+	fset := token.NewFileSet()
+	f, err := parser.ParseFile(fset, readPath(src), nil, parser.ParseComments)
+	if err != nil {
+		die("parse %s: %v", src, err)
+	}
+	n := 0
+	rewrite := func(e *ast.Expr) {
+		if sel, ok := (*e).(*ast.SelectorExpr); ok && isPkg(sel.X, "sync") {
+			switch sel.Sel.Name {
+			case "Mutex":
+				*e = ast.NewIdent("verifMutex")
+				n++
+			case "RWMutex":
+				*e = ast.NewIdent("verifRWMutex")
+				n++
+			}
+		}
+	}
+	ast.Inspect(f, func(node ast.Node) bool {
+		switch x := node.(type) {
+		case *ast.Field:
+			rewrite(&x.Type)
+		case *ast.ValueSpec:
+			if x.Type != nil {
+				rewrite(&x.Type)
+			}
+		}
+		return true
+	})
+	// a mutex used in any other position (embedded by pointer, passed as
+	// sync.Locker, composite literal ...) is something this rewriter does not know
+	var bad []string
+	ast.Inspect(f, func(node ast.Node) bool {
+		if sel, ok := node.(*ast.SelectorExpr); ok && isPkg(sel.X, "sync") {
+			switch sel.Sel.Name {
+			case "Mutex", "RWMutex", "Locker", "Cond", "NewCond":
+				bad = append(bad, fset.Position(sel.Pos()).String()+": sync."+sel.Sel.Name)
+			}
+		}
+		return true
+	})
+	if len(bad) > 0 {
+		die("%s uses sync locks in a way overlaygen does not know:\n  %s", src, strings.Join(bad, "\n  "))
+	}
+	if n == 0 {
+		return 0
+	}
+	var buf bytes.Buffer
+	if err := format.Node(&buf, fset, f); err != nil {
+		die("print: %v", err)
+	}
+	// keep the sync import used whatever else the file needs it for
+	buf.WriteString("\nvar _ sync.Once\n")
+	if err := os.WriteFile(dst, buf.Bytes(), 0o644); err != nil {
+		die("%v", err)
+	}
+	return n
+}
+
+const locksShim = `package serf
+
+// Added through go build -overlay by /verif/overlaygen; not part of the tree.
+// The mutexes of serf.go, query.go and event.go are of these types instead of
+// sync.Mutex / sync.RWMutex. They behave exactly like the originals; when the
+// harness has set VerifLockHook it is called before every acquire and after
+// every release, so that the harness can hold a goroutine back at the points
+// where another one may overtake it.
+
+import (
+	"sync"
+	"sync/atomic"
+)
+
+var verifLockHook atomic.Pointer[func(op string)]
+
+// VerifSetLockHook installs (or, with nil, removes) the hook.
+func VerifSetLockHook(h func(op string)) {
+	if h == nil {
+		verifLockHook.Store(nil)
+		return
+	}
+	verifLockHook.Store(&h)
+}
+
+func verifLockPoint(op string) {
+	if h := verifLockHook.Load(); h != nil {
+		(*h)(op)
+	}
+}
+
+type verifMutex struct{ mu sync.Mutex }
+
+func (m *verifMutex) Lock()         { verifLockPoint("lock"); m.mu.Lock() }
+func (m *verifMutex) Unlock()       { m.mu.Unlock(); verifLockPoint("unlock") }
+func (m *verifMutex) TryLock() bool { return m.mu.TryLock() }
+
+type verifRWMutex struct{ mu sync.RWMutex }
+
+func (m *verifRWMutex) Lock()    { verifLockPoint("lock"); m.mu.Lock() }
+func (m *verifRWMutex) Unlock()  { m.mu.Unlock(); verifLockPoint("unlock") }
+func (m *verifRWMutex) RLock()   { verifLockPoint("rlock"); m.mu.RLock() }
+func (m *verifRWMutex) RUnlock() { m.mu.RUnlock(); verifLockPoint("runlock") }
 `
